@@ -77,6 +77,50 @@ def run(tier):
                     found = True
                     rep.finding("hang/%s" % name, "family %s at depth %d did not return within 10 s" % (name, n),
                                 {"kind": "family", "config": cfg, "mode": mode, "family": name, "depth": n})
+        # flat documents with one very long token, and numbers with extreme exponents: stack use and time must not depend
+        # on the length of a token (only nesting may cost stack, and that is bounded)
+        tfam = {
+            "float-long-fraction": lambda n: b"[3." + b"3" * n + b" :ok]",
+            "float-long-integer-part": lambda n: b"[" + b"7" * n + b".5 1]",
+            "float-long-exponent-digits": lambda n: b"[1e" + b"9" * n + b" 1e-" + b"9" * n + b" 1.5e+0" + b"0" * n + b"1]",
+            "float-exponent-value": lambda n: b"[1e%d 1.5e-%d -2E+%d 0e%d 1e%dM]" % (n, n, n, n, n),
+            "integer-long": lambda n: b"[" + b"9" * n + b" -" + b"1" * n + b"N]",
+            "bigdec-long": lambda n: b"[" + b"1" * n + b".5M 0." + b"0" * n + b"1M]",
+            "string-long": lambda n: b'["' + b"a" * n + b'" "' + b"\\n" * (n // 2) + b'"]',
+            "symbol-long": lambda n: b"[" + b"a" * n + b" :" + b"k" * n + b" ns/" + b"n" * n + b"]",
+            "comment-long": lambda n: b";" + b"x" * n + b"\n[1]",
+            "blank-run-long": lambda n: b" " * n + b"," * n + b"[1" + b"\t" * n + b"]",
+        }
+        if cfg in ("clj", "both"):
+            tfam["hex-long"] = lambda n: b"[0x" + b"F" * n + b" 0" + b"7" * n + b"]"
+            tfam["radix-long"] = lambda n: b"[36r" + b"Z" * n + b" 2r" + b"1" * n + b"]"
+            tfam["ratio-long"] = lambda n: b"[" + b"1" * n + b"/" + b"3" * n + b"]"
+        if cfg in ("exp", "both"):
+            tfam["underscore-long"] = lambda n: b"[1" + b"_1" * n + b" 1" + b"_1" * n + b".5 1" + b"_0" * n + b"N]"
+            tfam["text-block-long"] = lambda n: b'["""\n' + b"  line\n" * n + b'  """]'
+        tlens = [1, 100, 511, 512, 513, 1000, 1001, 70000] + [3000000 if tier == "quick" else 8000000]
+        tdocs = [(nm, n, f(n)) for nm, f in tfam.items() for n in tlens]
+        tl = K.read_lines([d for _, _, d in tdocs])
+        for mode in ("o2", "san"):
+            impl, crashes = K.run_impl(cfg, tl, mode=mode, stack_kb=(1024 if mode != "san" else 8192), cpu_s=120, nchunks=16)
+            rep.count("token-families/%s-%s" % (cfg, mode), len(tl))
+            for idx, rc, err in crashes:
+                found = True
+                nm, n, d = tdocs[idx]
+                rep.finding("stack-or-hang/%s" % nm, "flat document %s with token length / exponent %d: process died (rc %s) under a 1 MiB stack / CPU limit" % (nm, n, rc),
+                            {"kind": "family", "config": cfg, "mode": mode, "family": nm, "depth": n, "input_hex": C.hexs(d) if len(d) < 4000 else None, "stderr": err[:1500]})
+            for (nm, n, d), a in zip(tdocs, impl):
+                if a is not None and a.startswith("timeout"):
+                    found = True
+                    rep.finding("hang/%s" % nm, "flat document %s with token length / exponent %d did not return within 10 s" % (nm, n),
+                                {"kind": "family", "config": cfg, "mode": mode, "family": nm, "depth": n, "input_hex": C.hexs(d) if len(d) < 4000 else None})
+        tsel = [i for i, (nm, n, d) in enumerate(tdocs) if n <= 1001]
+        timpl, tmodel, tdiffs, _, _ = K.correspond(cfg, [tl[i] for i in tsel])
+        for j in tdiffs[:3]:
+            i = tsel[j]
+            rep.broken_obligation("correspondence/token-family", "model %r vs code %r on %s length %d" % ((tmodel[j] or "")[:150], (timpl[j] or "")[:150], tdocs[i][0], tdocs[i][1]), False)
+        rep.note_cases(len(tl), set("%s-%d" % (nm, n) for nm, n, _ in tdocs))
+
         # correspondence on the moderate depths (the model answers every depth as well)
         sel = [i for i, (nm, n, d) in enumerate(fams) if n <= 10000]
         impl, model, diffs, crashes, mcr = K.correspond(cfg, [lines[i] for i in sel])
